@@ -142,7 +142,8 @@ Inductive call :=
 | CUninclude (g parent : nat)
 | CAffix (g parent : nat)
 | CProtect (g : nat) (p : prot)
-| CRewrite (g : nat).
+| CRewrite (g : nat)
+| CRenameUpdb (g : nat) (users : list nat).   (* gd_rename(.., GD_REN_UPDB) of a field of g used by fields of `users` *)
 
 Fixpoint bump (l : list nat) (g : nat) : list nat :=
   match l, g with
@@ -161,9 +162,14 @@ Fixpoint set_prot (l : list prot) (g : nat) (p : prot) : list prot :=
 Definition bump_meta (s : st) (g : nat) : st := mkSt (rw s) (prots s) (bump (meta s) g) (data s).
 Definition bump_data (s : st) (g : nat) : st := mkSt (rw s) (prots s) (meta s) (bump (data s) g).
 
+Definition bump_all (l : list nat) (gs : list nat) : list nat := fold_left bump gs l.
+
 Section Exec.
   (* whether the affix calls test access mode and protection (read from the source: accmode_gaps) *)
   Variable affix_guarded : bool.
+  (* whether gd_rename with GD_REN_UPDB tests the protection of the fragments whose fields it rewrites
+     (it does not on the frozen tree: recorded finding, fixed by hand here when that changes) *)
+  Variable updb_guarded : bool.
 
   Definition exec (s : st) (c : call) : result * st :=
     match c with
@@ -220,6 +226,11 @@ Section Exec.
       if negb (rw s) then (RAccMode, s)
       else if negb (Nat.ltb g (nfrag s)) then (RBadIndex, s)
       else (ROk, mkSt (rw s) (set_prot (prots s) g p) (bump (meta s) g) (data s))
+    | CRenameUpdb g users =>
+      if negb (rw s) then (RAccMode, s)
+      else if p_fmt (prot_of s g) then (RProtected, s)
+      else if updb_guarded && existsb (fun u => p_fmt (prot_of s u)) users then (RProtected, s)
+      else (ROk, mkSt (rw s) (prots s) (bump_all (bump (meta s) g) users) (data s))
     | CRewrite g =>
       (* gd_rewrite_fragment writes the same metadata out again: no semantic change, no protection test *)
       if negb (rw s) then (RAccMode, s)
@@ -233,4 +244,7 @@ Definition is_affix_call (c : call) : bool := match c with CAffix _ _ => true | 
 
 (* the guard switch as read from the source *)
 Definition gen_affix_guarded : bool := f_acc "gd_alter_affixes" && f_fmt "gd_alter_affixes".
-Definition gen_exec := exec gen_affix_guarded.
+Definition is_updb_call (c : call) : bool := match c with CRenameUpdb _ _ => true | _ => false end.
+(* hand-set: src/name.c has no protection test in the update pass of _GD_PrepareRename (open finding) *)
+Definition gen_updb_guarded : bool := false.
+Definition gen_exec := exec gen_affix_guarded gen_updb_guarded.
